@@ -20,7 +20,7 @@ from ..harness import rule
 from ..index import AnalysisError, text
 from ..models import BASE_STUBS, explore_recv, frame_stubs, mk_websocket, recv_config, set_cont_state
 from ..rulekit import CLOSED_EXC, TIMEOUT_EXC, WS_EXC, exc_is, isym, new_dict, new_list, new_obj, path_text
-from ..values import C, FALSE, INF, NONE, TRUE, App, HObj, Ref, Sym, Tup
+from ..values import C, FALSE, INF, NONE, TRUE, App, Cls, HObj, Ref, Sym, Tup
 
 INTERNAL = ("builtins.IndexError", "builtins.KeyError", "builtins.ValueError", "struct.error", "builtins.AttributeError",
             "builtins.UnicodeDecodeError", "builtins.UnicodeError", "builtins.TypeError", "builtins.NameError", "builtins.LookupError",
@@ -38,6 +38,9 @@ def hostile(extra=None):
                     if f is not None and f.truth is True:
                         return []
             return ["builtins.UnicodeDecodeError"]
+        if name == "http.cookies.SimpleCookie" or name.endswith("SimpleCookie.load"):
+            # parsing peer-supplied Set-Cookie text: an attribute name with an illegal character raises CookieError
+            return ["http.cookies.CookieError"]
         if name == "builtins.int":
             arg = getattr(run, "cur_arg", None)
             if arg is not None:
@@ -139,6 +142,16 @@ def r1(ctx):
                                                           [Sym("sock", "obj"), C("ws://h/"), Sym("host", "str"), C(80), Sym("res", "str")],
                                                           {"subprotocols": new_list(run, [C("chat")])}, None)))
     _report(ctx, I2, outs2, "_handshake:handshake", "_handshake:handshake", "handshake()")
+    # (b2) every accepted or redirecting response hands its Set-Cookie text to the cookie jar
+    for meth in ("add", "set"):
+        Ij = Interp(idx, Config(stubs={}, may_raise=hostile(), dyn_stubs=[lambda name: (lambda I_, run, a, k, n: Tup(())) if name.endswith((".values", ".items")) else None]))
+
+        def bodyj(run, meth=meth):
+            jar = Ij.call(run, Cls("_cookiejar:SimpleCookieJar"), [], {}, None)
+            return Ij.call(run, Ij.getattr(run, jar, meth, None), [Sym("set_cookie_header", "str")], {}, None)
+
+        outsj = ctx.count_paths(Ij.explore(bodyj))
+        _report(ctx, Ij, outsj, f"_cookiejar:SimpleCookieJar.{meth}", f"_cookiejar:SimpleCookieJar.{meth}", f"the cookie jar's {meth}() (called with the response's Set-Cookie text)")
     # (c) WebSocket.connect: redirect handling on arbitrary response headers
     def conn(I3, run, args, kwargs, node):
         url = args[0]
